@@ -34,6 +34,7 @@ Print Assumptions C04_shape_obligation.
 Theorem C04_sound :
   forall (matchb : string -> path -> bool) (H : string -> string) (Hx : fpr -> string) (v : variant),
     v_safe v = true -> v_fp_exact v = true -> v_ts_exact v = true -> v_listjson_dry v = true ->
+    v_dry_fail_guard v = true ->
     (forall a b, Hx a = Hx b -> a = b) ->
     forall (p : project) (s : state) (h : list event),
       wf_proj p -> empty_store s ->
@@ -46,11 +47,12 @@ Print Assumptions C04_sound.
    this instance is vacuous - the live statements are C04_current_checksum / C04_current_timestamp. *)
 Theorem C04_sound_current :
   v_safe current = true -> v_fp_exact current = true -> v_ts_exact current = true -> v_listjson_dry current = true ->
+  v_dry_fail_guard current = true ->
   forall (Hx : fpr -> string), (forall a b, Hx a = Hx b -> a = b) ->
   forall (p : project) (s : state) (h : list event),
     wf_proj p -> empty_store s ->
     mon_C04 gmatch p (snap_of s) (observe gmatch idH Hx current p s h) = true.
-Proof. exact (fun a b c d Hx i => c04_sound gmatch idH Hx current a b c d i). Qed.
+Proof. exact (fun a b c d e Hx i => c04_sound gmatch idH Hx current a b c d e i). Qed.
 Print Assumptions C04_sound_current.
 
 (* ------------------------------------------------------------------------------------------- *)
@@ -59,7 +61,7 @@ Print Assumptions C04_sound_current.
 (* the repairs, as facts about /repo (a regression breaks these, hence everything below) *)
 Theorem C04_current_flags :
   v_safe current = true /\ v_listjson_dry current = true /\ v_ts_rollback current = true /\
-  v_prompt_rollback current = true /\ v_force_records current = true.
+  v_prompt_rollback current = true /\ v_force_records current = true /\ v_dry_fail_guard current = true.
 Proof. vm_compute. repeat split. Qed.
 Print Assumptions C04_current_flags.
 
